@@ -187,6 +187,9 @@ inductive Ev where
   | connect (routes : List Nat)
   /-- the answer to the `i`-th command that is in flight outside the semaphore (unchanged legacy `unregister`) -/
   | replyU (i : Nat) (k : Reply)
+  /-- the connection is lost — `Face.run()` returns (EOF, reset, `app.shutdown()`) or raises (ConnectionAbortedError,
+      another OSError, TimeoutError) out of `main_loop` — and what was going on comes to its end -/
+  | down
   deriving DecidableEq, Repr, Inhabited
 
 /-- the holder of the semaphore waits for a fresh millisecond, signs and sends -/
@@ -241,6 +244,17 @@ def step (cfg : Cfg) (env : Env) (s : St) : Ev → St × List Out
       let a := handOver cfg env { s with inflight := none }
       let b := autoNext cfg env a.1 r res
       (b.1, .ret r res :: (a.2 ++ b.2))
+  | .down =>
+    -- The command in flight never gets its answer: `_clean_up()` cancels it (InterestCanceled), or — when `run()`
+    -- raised and `_clean_up()` is skipped — it runs into its lifetime (InterestTimeout); either way the call returns
+    -- `False`.  If that call was the start-up task's, the task goes on to the next route, `express` raises
+    -- NetworkError ("cannot send packet before connected") and the task dies: the rest of its walk is dropped.
+    -- Calls that wait for the command lock at this moment (they would raise NetworkError one by one) are not modelled.
+    if !s.queue.isEmpty then (s, [.unmodelled])
+    else match s.inflight with
+      | none => ({ s with autoTodo := [] }, [])
+      | some r => ({ s with inflight := none, autoTodo := [] },
+                   [.ret r (finish cfg r.verb (expressOutcome cfg.fe .canceled))])
   | .connect routes =>
     if autoActive s then (s, [.unmodelled])
     else match routes with
